@@ -6,7 +6,6 @@ import (
 	"fmt"
 	"google.golang.org/grpc/codes"
 	"google.golang.org/grpc/status"
-	"runtime"
 	"runtime/debug"
 	"sort"
 	"strconv"
@@ -435,20 +434,35 @@ func (r *Runner) getAcrossHandover(obj int, mode string, h *handover) (kind stri
 		panic("deadlock: a read neither finished nor reached its lock hand-over within 20s")
 	}
 	op, size := r.launchPut(h.id, h.obj, h.ver, h.chunking, h.fault)
-	// wait until the upload is queued for the write lock (a pending writer makes TryRLock fail), or has got through
-	// without needing it
-	for i := 0; i < 200000; i++ {
+	// wait until the upload is queued for the write lock (a pending writer makes TryRLock fail), or has finished
+	// without ever needing it
+	var early *event
+	deadline := time.Now().Add(10 * time.Second)
+	for {
 		if !r.st.Lock.TryRLock() {
 			break
 		}
 		r.st.Lock.RUnlock()
-		if len(r.ev) > 0 {
+		select {
+		case e := <-r.ev:
+			early = &e
+		default:
+		}
+		if early != nil {
 			break
 		}
-		runtime.Gosched()
+		if time.Now().After(deadline) {
+			panic("deadlock: an upload neither queued for the store lock nor finished within 10s")
+		}
+		time.Sleep(20 * time.Microsecond)
 	}
 	close(release)
-	e := r.wait()
+	var e event
+	if early != nil {
+		e = *early
+	} else {
+		e = r.wait()
+	}
 	r.noState = true
 	r.afterPutStart(op, size, e)
 	r.noState = false
